@@ -121,6 +121,19 @@ pub fn take_ctor_stats() -> simcore::countalloc::AllocStats {
     CTOR_STATS.with(std::cell::Cell::take)
 }
 
+/// Installs constructor statistics taken on another thread (a history that continues on this one).
+pub fn set_ctor_stats(st: simcore::countalloc::AllocStats) {
+    CTOR_STATS.with(|c| c.set(st));
+}
+
+pub fn mk_counter() -> u32 {
+    MK_COUNTER.with(std::cell::Cell::get)
+}
+
+pub fn set_mk_counter(v: u32) {
+    MK_COUNTER.with(|c| c.set(v));
+}
+
 pub trait MkEngine: Engine + Sized + 'static {
     fn mk() -> Self;
 }
@@ -558,6 +571,11 @@ fn note_divergence(what: String) {
             *d = Some(what);
         }
     }));
+}
+
+/// Installs a pending divergence taken on another thread (a history that continues on this one).
+pub fn set_layer_divergence(what: Option<String>) {
+    simcore::countalloc::unmeasured(|| LAYER_DIVERGENCE.with(|d| *d.borrow_mut() = what));
 }
 
 /// First call on which a `ReedSolomon*` wrapper and the `DefaultRate*<DefaultEngine>` codec fed with the same calls
